@@ -827,6 +827,7 @@ func runCleanerRace(run *vk.Run, rep int) {
 	var returned atomic.Int64 // highest uid whose Broadcast has returned
 	stop := make(chan struct{})
 	done := make(chan struct{})
+	var calledAt []time.Time // calledAt[uid-1]: taken before Broadcast(uid) is called; read after <-done
 	go func() {
 		defer close(done)
 		for uid := 1; ; uid++ {
@@ -835,6 +836,7 @@ func runCleanerRace(run *vk.Run, rep int) {
 				return
 			default:
 			}
+			calledAt = append(calledAt, time.Now())
 			hdr := &parser.PacketHeader{Type: parser.PacketTypeEvent, Namespace: "/"}
 			ad.Broadcast(hdr, []any{"ev", uid}, adapter.NewBroadcastOptions())
 			returned.Store(int64(uid))
@@ -859,9 +861,18 @@ func runCleanerRace(run *vk.Run, rep int) {
 	time.Sleep(150 * time.Millisecond)
 	mustHave := int(returned.Load())
 	sess, ok := ad.RestoreSession("pv", off.offset)
-	away := time.Since(lostAt)
+	restoredAt := time.Now()
+	away := restoredAt.Sub(lostAt)
 	close(stop)
 	<-done
+	if off.uid >= 1 && off.uid <= len(calledAt) {
+		// the window runs from the emission of the packet the offset names, not from the loss of the session: when the
+		// broadcasting goroutine was starved before the loss (loaded machine), that packet is older than "away" says
+		if age := restoredAt.Sub(calledAt[off.uid-1]); age > window-150*time.Millisecond {
+			run.Inconclusive(fmt.Sprintf("cleaner race: the packet the offset names was up to %v old at the restore (window %v; away %v): it may legitimately have expired", age.Round(time.Millisecond), window, away.Round(time.Millisecond)))
+			return
+		}
+	}
 	if away > window-150*time.Millisecond {
 		// the 150 ms nap overshot badly (loaded machine): the offset entry may legitimately have expired
 		run.Inconclusive(fmt.Sprintf("cleaner race: the session was away %v (planned 150 ms, window %v)", away.Round(time.Millisecond), window))
@@ -875,7 +886,7 @@ func runCleanerRace(run *vk.Run, rep int) {
 		run.Inconclusive("cleaner race: the session never received an offset")
 	case !ok:
 		run.Violation(vk.Violation{Sub: "not-recovered-inside-window", Fields: fields,
-			What: fmt.Sprintf("session lost for 150 ms with a window of %v while broadcasts and clean-up passes (%d) run concurrently: RestoreSession refused (offset uid %d was emitted under 200 ms before)", window, passes, off.uid), Witness: wit})
+			What: fmt.Sprintf("session lost for 150 ms with a window of %v while broadcasts and clean-up passes (%d) run concurrently: RestoreSession refused (the Broadcast of offset uid %d was called under %v before the restore returned)", window, passes, off.uid, window-150*time.Millisecond), Witness: wit})
 	default:
 		var replay []int
 		for _, mp := range sess.MissedPackets {
